@@ -47,6 +47,14 @@ Bad(e, prop, why) == [pos |-> l, scn |-> e.scn, i |-> e.i, prop |-> prop, why |-
 RECURSIVE PathTo(_, _)
 PathTo(BB, x) == IF x = "" \/ x \notin DOMAIN BB THEN <<>> ELSE Append(PathTo(BB, BB[x].parent), x)
 
+(* ticket density for the window ending in block x (is_golden_ticket_count_valid_; Chain.tla GTOk), *)
+(* evaluated on everything the monitor has seen: if it holds here it holds on the node's shorter memory *)
+GtDense(BB, x) ==
+    LET p == PathTo(BB, BB[x].parent)
+        an == IF Len(p) <= 5 THEN p ELSE SubSeq(p, Len(p) - 4, Len(p))
+        found == Cardinality({i \in DOMAIN an : BB[an[i]].gt}) + (IF BB[x].gt THEN 1 ELSE 0)
+    IN IF Len(an) < 4 THEN TRUE ELSE IF Len(an) = 4 THEN found >= 1 ELSE found >= 2
+
 (* the node's by-height index against a path of labels; heights at or below tiph - 2G have been purged ("-") *)
 LcMatches(lc, path, tiph, G) ==
     /\ Len(lc) = Len(path)
@@ -116,7 +124,7 @@ BlockChecks(e, BB, UU) ==
         \* C08: routing work of a block against the requirement
         short(x) == BB[x].parent # "" /\ LimbLt(BlockWork(BB[x].txs, BB[x].creator), BB[x].needed)
         honest == e.x.bedit = "" /\ rooted /\ viol(lab) = {} /\ e.who = "builder"
-                  /\ BB[lab].parent = obs.tip /\ ~e.x.redelivery /\ ~short(lab)
+                  /\ BB[lab].parent = obs.tip /\ ~e.x.redelivery /\ ~short(lab) /\ GtDense(BB, lab)
         c07 == (IF e.who = "node" /\ e.res # "AddedLc"
                 THEN {Bad(e, "C07", "own-block-rejected-by-producer")} ELSE {})
                \cup (IF e.who = "node" /\ e.x.replica # "" /\ e.x.replica # "AddedLc"
@@ -191,7 +199,7 @@ NftPayloads(BB) ==
     UNION {UNION {{t.outs[i].o : i \in {j \in 2..(Len(t.outs) - 1) : t.outs[j - 1].kind = KBound /\ t.outs[j + 1].kind = KBound}}
                   : t \in Rng(BB[lab].txs)} : lab \in DOMAIN BB}
 
-WalletChecksIn(e, st, u, tiph, wc, BB) ==
+WalletChecksR(e, st, u, tiph, wc, BB, reorgnow) ==
     LET G == env.g
         w == st.wallet
         listed == {x \in Rng(w.slips) : x.o \in Rng(w.unspent)}
@@ -200,10 +208,12 @@ WalletChecksIn(e, st, u, tiph, wc, BB) ==
     IN (IF ~LimbEq(sum, T3(w.balance)) THEN {Bad(e, "C19", "balance-differs-from-unspent-sum")} ELSE {})
        \* wc: outputs the wallet has committed to transactions it built since it was started (a transaction that left
        \* the node's pool may still confirm elsewhere: the wallet keeps its inputs committed)
-       \cup (IF env.reorgs = 0 /\ w.pending = 0 /\ Rng(w.unspent) # mine \ wc
+       \* (C19 demands the set equality on chains without reorganisation: not from the first one on)
+       \cup (IF env.reorgs = 0 /\ ~reorgnow /\ w.pending = 0 /\ Rng(w.unspent) # mine \ wc
              THEN {Bad(e, "C19", IF wc = {} THEN "wallet-unspent-differs-from-ledger" ELSE "wallet-unspent-differs-from-ledger-minus-committed")}
              ELSE {})
 
+WalletChecksIn(e, st, u, tiph, wc, BB) == WalletChecksR(e, st, u, tiph, wc, BB, FALSE)
 WalletChecks(e, st, u, tiph, wc) == WalletChecksIn(e, st, u, tiph, wc, B)
 
 (* a payment built by the node's own wallet: distinct existing inputs of its own key, outputs not exceeding *)
@@ -261,7 +271,7 @@ OnBlock(e) ==
                               !.detached = @ \/ (T.tip \in DOMAIN BB /\ ~LcMatches(e.st.lc, PathTo(BB, T.tip), T.tiph, env.g))]
        /\ bad' = bad \cup BlockChecks(e, BB, UU)
                      \cup (IF IsPanic(e.res) THEN {} ELSE PoolChecks(e, e.st, P2, T.utxo, T.tiph))
-                     \cup (IF IsPanic(e.res) THEN {} ELSE WalletChecksIn(e, e.st, T.utxo, T.tiph, env.wc, BB))
+                     \cup (IF IsPanic(e.res) THEN {} ELSE WalletChecksR(e, e.st, T.utxo, T.tiph, env.wc, BB, isreorg))
 
 OnSubmit(e) ==
     LET t == Tx(e.tx)
@@ -297,10 +307,17 @@ OnRestart(e) ==
     /\ bad' = bad
          \cup (IF IsPanic(e.res) THEN {Bad(e, "C12", IF e.competing > 0 THEN "restart-panicked-with-competing-branch-on-disk" ELSE "restart-panicked")} ELSE
                (IF b.tip # a.tip
-                THEN {Bad(e, "C12", IF e.competing > 0 THEN "restart-changed-tip-with-competing-branch-on-disk" ELSE "restart-changed-tip")}
+                THEN {Bad(e, "C12", IF b.tiph > a.tiph THEN "restart-raised-the-tip"   \* the running node had not been on its best chain
+                                    ELSE IF e.competing > 0 THEN "restart-changed-tip-with-competing-branch-on-disk"
+                                    ELSE "restart-changed-tip")}
                 ELSE {})
                \cup (IF b.tip = a.tip /\ Names(InWin(b.utxo, b.tiph, G)) # Names(InWin(a.utxo, a.tiph, G))
-                     THEN {Bad(e, "C12", "restart-changed-spendable-outputs")} ELSE {})
+                     \* a node that an earlier restart left on a tip below blocks it has on disk (known finding:
+                     \* the restarted tip depends on the replay order when a competing branch is on disk) holds
+                     \* in-window outputs of blocks that were purged from disk when its tip was higher
+                     THEN {Bad(e, "C12", IF e.competing > 0 /\ a.tiph < e.disk_top
+                                         THEN "restart-changed-spendable-outputs-on-a-tip-below-the-blocks-on-disk"
+                                         ELSE "restart-changed-spendable-outputs")} ELSE {})
                \cup (IF ~env.detached /\ ~SupplyOk(e, e.st) THEN {Bad(e, "C12", "restart-changed-supply")} ELSE {}))
     /\ obs' = IF IsPanic(e.res) THEN obs ELSE b
     /\ pool' = [id \in (DOMAIN pool \cap Rng(e.st.pool)) |-> pool[id]]     \* the pool is not persisted
